@@ -4,8 +4,11 @@
    calculate_oversampling_factor / estimate_selectivity; fails closed)
 2. proofs over the regenerated validators + Model/Requests.v: Properties/C15.vo
 3. harness/p/c15 drives the REAL kyrodb_server binary (harness/p/srv) with the structural request grid
-   (every RPC x every field x boundary / pathological value, singly and in mixed streams; euclidean and cosine),
-   census after every step, liveness probe after every refusal, restarts; direct oracles over observations
+   (every RPC x every field x boundary / pathological value, singly and in mixed streams; one server process
+   per supported metric: euclidean, cosine, innerproduct), census after every step, liveness probe after every
+   refusal, restarts — in particular a restart IMMEDIATELY after every BulkInsert / BulkLoadHnsw stream of
+   non-finite items (NaN, +inf, -inf at first/middle/last position) over acknowledged and over fresh ids;
+   direct oracles over observations
 4. every answer + follow-up census is compared with Model/Requests.v inside coqc (vm_compute)
 Input classes (classified by the driver on the specific observation):
   C15-bulk-search-aborts-stream-on-invalid-item   a BulkSearch stream within the batch limit whose messages all
@@ -96,7 +99,13 @@ def _case_of(allc, shard, step=None):
         return c["case"]
     st = c["case"]["steps"]
     # smallest standalone script: what the model state needs (all writes before the step) + the step
-    keep = [s for s in st[:step] if s["op"]["op"] in ("insert", "bulk_insert", "bulk_load", "delete", "bdel_ids", "bdel_filter", "update")]
+    start = 0
+    if st[step]["op"]["op"] == "restart":
+        # a restart that changes the census: the writes since the previous restart are what the WAL replays
+        # differently (each durability group of the generator re-seeds its own ids, so it is self-contained)
+        prev = [i for i in range(step) if st[i]["op"]["op"] == "restart"]
+        start = prev[-1] + 1 if prev else 0
+    keep = [s for s in st[start:step] if s["op"]["op"] in ("insert", "bulk_insert", "bulk_load", "delete", "bdel_ids", "bdel_filter", "update")]
     return {"name": "min", "metric": c["case"]["metric"], "dim": c["case"]["dim"], "steps": keep + [st[step]]}
 
 
